@@ -67,6 +67,12 @@ def build_inputs(tier):
     for cmd in ["echo what? x", "ls file?.txt", "echo a ??", "echo $ HOME", "ls *.[ch] x", "echo a[0] b", "echo (a b) c", "echo [a   b]", "echo a(b c)d e", "echo {a,b}", "echo if x", "echo in", "grep for file", "echo a is b", "test x -a not"]:
         exp = f"__xonsh__.subproc_captured({', '.join(repr(w) for w in split_independent(cmd))})"
         cases.append(("plain", f"$({cmd})", exp, ["kf-neighbourhood"]))
+    # a backslash continuation inside the command: the next line starts a NEW word even in column 0 (blank before the backslash)
+    for cmd, words in [("ls -l \\\n-a", ["ls", "-l", "-a"]), ("echo \"x\" \\\n\"y\"", ["echo", '"x"', '"y"']), ("echo a \\\nb c", ["echo", "a", "b", "c"]), ("echo a\t\\\n>> log", ["echo", "a", ">>", "log"]),
+                       ("echo a \\\n  b", ["echo", "a", "b"]), ("git commit \\\n-m msg \\\n-q", ["git", "commit", "-m", "msg", "-q"])]:
+        for (o, c), m in sorted(xonshgen.METHODS.items()):
+            exp = f"__xonsh__.{m}({', '.join(repr(w) for w in words)})"
+            cases.append(("plain", f"{o}{cmd}{c}", exp, ["continuation-col0"]))
     # plain-word-only commands checked against str.split()
     for _ in range(400 * N):
         n = r.randint(1, 6)
